@@ -160,8 +160,7 @@ def audit_axioms(module, theorems, tag):
 
 
 def load_obligations(prop):
-    reg = json.load(open(os.path.join(VERIF, "tools", "obligations.json")))
-    return reg[prop]
+    return json.load(open(os.path.join(VERIF, "tools", "obligations", f"{prop}.json")))
 
 
 def prove(prop, extra_modules=()):
